@@ -26,6 +26,11 @@ func newStringPrefixFilter(code *syntax.Code) StringPrefixFilter {
 	if code == nil || code.RightToLeft || code.FindOptimizations == nil {
 		return nil
 	}
+	if code.UsesStartAnchor() {
+		// the search is restarted at the candidate the filter returns, which
+		// would move the position \G is bound to
+		return nil
+	}
 
 	opts := code.FindOptimizations
 	minRequiredLength := opts.MinRequiredLength
